@@ -90,7 +90,11 @@ func catalogue() []catReq {
 	}
 	authz("no-scope", func(v url.Values, mk string) { v.Del("scope") })
 	authz("bad-response-type", func(v url.Values, mk string) { v.Set("response_type", "junk") })
-	authz("response-type-not-registered", func(v url.Values, mk string) { v.Set("response_type", "id_token token"); v.Set("client_id", "web") ; v.Set("redirect_uri", "https://web.example/cb")})
+	authz("response-type-not-registered", func(v url.Values, mk string) {
+		v.Set("response_type", "id_token token")
+		v.Set("client_id", "web")
+		v.Set("redirect_uri", "https://web.example/cb")
+	})
 	authz("prompt-none-login", func(v url.Values, mk string) { v.Set("prompt", "none login") })
 	authz("unknown-client", func(v url.Values, mk string) { v.Set("client_id", "cl-"+mk) })
 	authz("unregistered-redirect", func(v url.Values, mk string) { v.Set("redirect_uri", "https://evil.example/"+mk) })
@@ -99,7 +103,10 @@ func catalogue() []catReq {
 	authz("bad-max-age", func(v url.Values, mk string) { v.Set("max_age", "x") })
 	authz("openid-missing", func(v url.Values, mk string) { v.Set("scope", "profile sc-"+mk) })
 	authz("bad-response-mode", func(v url.Values, mk string) { v.Set("response_mode", "rm-"+mk) })
-	authz("pkce-method-junk", func(v url.Values, mk string) { v.Set("code_challenge", "cc-"+mk); v.Set("code_challenge_method", "junk") })
+	authz("pkce-method-junk", func(v url.Values, mk string) {
+		v.Set("code_challenge", "cc-"+mk)
+		v.Set("code_challenge_method", "junk")
+	})
 	add("callback:unknown-id", "GET", "/authorize/callback", func(mk string) url.Values { return url.Values{"id": {"id-" + mk}} }, nil, nil)
 	add("callback:no-id", "GET", "/authorize/callback", func(mk string) url.Values { return url.Values{} }, nil, nil)
 
@@ -111,18 +118,24 @@ func catalogue() []catReq {
 	tok("code-invalid", func(mk string) url.Values {
 		return url.Values{"grant_type": {"authorization_code"}, "code": {"code-" + mk}, "redirect_uri": {c20Redirect}}
 	}, c20Auth)
-	tok("code-missing", func(mk string) url.Values { return url.Values{"grant_type": {"authorization_code"}, "redirect_uri": {c20Redirect}} }, c20Auth)
+	tok("code-missing", func(mk string) url.Values {
+		return url.Values{"grant_type": {"authorization_code"}, "redirect_uri": {c20Redirect}}
+	}, c20Auth)
 	tok("wrong-secret", func(mk string) url.Values {
 		return url.Values{"grant_type": {"authorization_code"}, "code": {"code-" + mk}, "redirect_uri": {c20Redirect}}
 	}, func(s srv, mk string) opdrv.ClientAuth { return opdrv.BasicAuth("c20", "wrong-"+mk) })
 	tok("unknown-client", func(mk string) url.Values {
 		return url.Values{"grant_type": {"authorization_code"}, "code": {"code-" + mk}, "redirect_uri": {c20Redirect}}
 	}, func(s srv, mk string) opdrv.ClientAuth { return opdrv.BasicAuth("cl-"+mk, "x") })
-	tok("refresh-invalid", func(mk string) url.Values { return url.Values{"grant_type": {"refresh_token"}, "refresh_token": {"rt-" + mk}} }, c20Auth)
+	tok("refresh-invalid", func(mk string) url.Values {
+		return url.Values{"grant_type": {"refresh_token"}, "refresh_token": {"rt-" + mk}}
+	}, c20Auth)
 	tok("refresh-scope", func(mk string) url.Values {
 		return url.Values{"grant_type": {"refresh_token"}, "refresh_token": {"rt-" + mk}, "scope": {"sc-" + mk}}
 	}, c20Auth)
-	tok("jwt-bearer-garbage", func(mk string) url.Values { return url.Values{"grant_type": {string(oidc.GrantTypeBearer)}, "assertion": {"as-" + mk}} }, nil)
+	tok("jwt-bearer-garbage", func(mk string) url.Values {
+		return url.Values{"grant_type": {string(oidc.GrantTypeBearer)}, "assertion": {"as-" + mk}}
+	}, nil)
 	tok("client-assertion-garbage", func(mk string) url.Values {
 		return url.Values{"grant_type": {"authorization_code"}, "code": {"code-" + mk}, "client_assertion": {"as-" + mk}, "client_assertion_type": {oidc.ClientAssertionTypeJWTAssertion}}
 	}, nil)
@@ -133,11 +146,17 @@ func catalogue() []catReq {
 		return url.Values{"grant_type": {string(oidc.GrantTypeTokenExchange)}, "subject_token": {"sub-" + mk}, "subject_token_type": {"ty-" + mk}}
 	}, c20Auth)
 	tok("exchange-no-subject", func(mk string) url.Values { return url.Values{"grant_type": {string(oidc.GrantTypeTokenExchange)}} }, c20Auth)
-	tok("device-unknown", func(mk string) url.Values { return url.Values{"grant_type": {string(oidc.GrantTypeDeviceCode)}, "device_code": {"dc-" + mk}} }, c20Auth)
-	tok("client-credentials-wrong-secret", func(mk string) url.Values { return url.Values{"grant_type": {"client_credentials"}, "scope": {"openid"}} },
+	tok("device-unknown", func(mk string) url.Values {
+		return url.Values{"grant_type": {string(oidc.GrantTypeDeviceCode)}, "device_code": {"dc-" + mk}}
+	}, c20Auth)
+	tok("client-credentials-wrong-secret", func(mk string) url.Values {
+		return url.Values{"grant_type": {"client_credentials"}, "scope": {"openid"}}
+	},
 		func(s srv, mk string) opdrv.ClientAuth { return opdrv.BasicAuth("c20", "wrong-"+mk) })
 	tok("bad-basic-escape", func(mk string) url.Values { return url.Values{"grant_type": {"client_credentials"}} },
-		func(s srv, mk string) opdrv.ClientAuth { return opdrv.ClientAuth{Kind: "rawbasic", ID: "c20", Secret: "%zz" + mk} })
+		func(s srv, mk string) opdrv.ClientAuth {
+			return opdrv.ClientAuth{Kind: "rawbasic", ID: "c20", Secret: "%zz" + mk}
+		})
 
 	add("introspect:no-auth", "POST", "/oauth/introspect", func(mk string) url.Values { return url.Values{"token": {"tk-" + mk}} }, nil, nil)
 	add("introspect:garbage", "POST", "/oauth/introspect", func(mk string) url.Values { return url.Values{"token": {"tk-" + mk}} }, c20Auth, nil)
